@@ -573,16 +573,20 @@ def _extract_named_added_loss_terms(module, memo=None, prefix=""):
 
 
 def _extract_named_priors(
-    module: nn.Module, memo: Optional[MutableSet[Prior]] = None, prefix: str = ""
+    module: nn.Module, memo: Optional[MutableSet[nn.Module]] = None, prefix: str = ""
 ) -> Iterator[tuple[str, nn.Module, Prior, Closure, SettingClosure | None]]:
     # A module that is reachable under several names (e.g. a base kernel that is also kept as an attribute of
     # the model) must contribute each of its priors once, like its parameters, constraints and added loss terms.
+    # The memo holds the modules already visited (not the prior objects): one prior object may be registered for
+    # parameters of several modules, and every such registration is a separate term.
     if memo is None:
         memo = set()
+    if module in memo:
+        return
+    memo.add(module)
     if isinstance(module, Module):
         for name, (prior, closure, inv_closure) in module._priors.items():
-            if prior is not None and prior not in memo:
-                memo.add(prior)
+            if prior is not None:
                 full_name = ("." if prefix else "").join([prefix, name])
                 yield full_name, module, prior, closure, inv_closure
     for mname, module_ in module.named_children():
